@@ -119,7 +119,10 @@ Filters::Filters():
    mpLevelFilter( nullptr)
 {
 
-   setDuplicatePolicy( detail::DuplicatePolicy::ignore);
+   // make sure that a policy exists, but don't overwrite the policy that was
+   // configured for all filter objects
+   if (mpDuplicatePolicy.get() == nullptr)
+      setDuplicatePolicy( detail::DuplicatePolicy::ignore);
 
 } // Filters::Filters
 
